@@ -13,6 +13,12 @@ def gen_msg(seed, j, size):
     return ('{"seq":%d,"pad":"%s"}' % (j, pad)).encode()
 
 
+def json_like(rng, i, n):
+    """a message of about n octets that looks like what the workers queue"""
+    pad = bytes(rng.choice(b"abcdefghijklmnopqrstuvwxyz0123456789.:") for _ in range(max(0, n - 24)))
+    return ('{"n":%d,"pad":"' % i).encode() + pad + b'"}'
+
+
 def digest(b):
     return "%d:%s:%s" % (len(b), hashlib.sha1(b).hexdigest()[:16], b[:24].hex())
 
@@ -77,6 +83,9 @@ class P:
         f = line.split(" ")
         if f[0] == "pstall":
             return ("stall", int(f[1]), int(f[2]), int(f[3]), int(f[4]), " ".join(f[5:]))
+        if f[0] == "ptwo":
+            ai, bi = f.index("A"), f.index("B")
+            return ("two", 0, 0, [], [[bytes.fromhex(x[1:]) for x in f[ai + 1:bi]], [bytes.fromhex(x[1:]) for x in f[bi + 1:]]])
         if f[0] == "pmove":
             return ("move", int(f[1]), int(f[2]), [], [bytes.fromhex(x[1:]) for x in f[f.index("M") + 1:]])
         fi, mi = f.index("F"), f.index("M")
@@ -153,6 +162,23 @@ class P:
             line = "producer %s %d %d F %s M %s" % (proto, retry, gap, " ".join("%d %d %d" % f for f in faults), " ".join(hx(m) for m in msgs))
             self.meta[line] = (proto, retry, gap, faults, msgs)
             out.append(line)
+        # a BURST towards a udp sink: 40 messages of 1-3 kB handed over at once (more than one datagram can carry, more than any buffer a
+        # writer might put in front of the socket): one datagram per message, each exactly the message and a newline
+        for i in range(2 if tier == "quick" else 10):
+            msgs = [m for m in (self.rand_msg(rng, j) for j in range(60)) if 800 < len(m) < 3500][:40]
+            while len(msgs) < 40:
+                msgs.append(json_like(rng, len(msgs), rng.randrange(900, 3000)))
+            line = "producer udp %d 0 F  M %s" % (rng.choice([0, 2]), " ".join(hx(m) for m in msgs))
+            self.meta[line] = ("udp", 0, 0, [], msgs)
+            out.append(line)
+        # TWO producers in one process (vflow runs one per protocol), each with its own configuration and sink, tcp and udp
+        for i in range(2 if tier == "quick" else 8):
+            pa, pb = rng.choice([("tcp", "tcp"), ("tcp", "udp"), ("udp", "tcp")])
+            ma = [json_like(rng, j, rng.randrange(20, 400)) for j in range(rng.choice([6, 15]))]
+            mb = [json_like(rng, 1000 + j, rng.randrange(20, 400)) for j in range(rng.choice([6, 15]))]
+            line = "ptwo %s %s %d %d A %s B %s" % (pa, pb, rng.choice([0, 2]), rng.choice([1, 3]), " ".join(hx(m) for m in ma), " ".join(hx(m) for m in mb))
+            self.meta[line] = ("two", 0, 0, [], [ma, mb])
+            out.append(line)
         # the sink is configured by NAME; the name has two addresses; the sink goes away and a standby takes over under the same name
         # on the other address: "the sink is reachable again" is meant as the configuration names it
         for i in range(3 if tier == "quick" else 12):
@@ -162,6 +188,23 @@ class P:
             self.meta[line] = ("move", retry, 4, [], msgs)
             out.append(line)
         return out
+
+    def judge_two(self, line, impl):
+        _, _, _, _, (ma, mb) = self.info(line)
+        if impl.startswith("SINK-ERROR"):
+            return None
+        if "PANIC" in impl or "HANG" in impl or not impl.startswith("A "):
+            return "producers crashed or hung: " + impl[-120:]
+        m = re.match(r"A (.*?) ?\| B (.*?) ?\| EC=(\d+),(\d+)", impl)
+        for name, got_s, want, other in (("first", m.group(1), ma, mb), ("second", m.group(2), mb, ma)):
+            got = [bytes.fromhex(x[1:]) for x in got_s.split(" ") if x]
+            exp = [x + b"\n" for x in want]
+            if got != exp:
+                foreign = [g for g in got if g in [x + b"\n" for x in other]]
+                return ("two raw-socket producers in one process, each with its own configuration and sink: the sink of the %s producer received %d of the %d "
+                        "messages handed to that producer%s (MQErrorCount %s,%s)" % (name, len([g for g in got if g in exp]), len(exp),
+                        (" and %d message(s) that were handed to the OTHER producer" % len(foreign)) if foreign else "", m.group(3), m.group(4)))
+        return None
 
     def judge_move(self, line, impl):
         _, retry, gap, _, msgs = self.info(line)
@@ -192,6 +235,8 @@ class P:
             return self.judge_stall(line, impl)
         if self.info(line)[0] == "move":
             return self.judge_move(line, impl)
+        if self.info(line)[0] == "two":
+            return self.judge_two(line, impl)
         proto, retry, gap, faults, msgs = self.info(line)
         if "RUN=dial_" in impl and faults and faults[0][0] == 0:
             return None      # the sink reset the very first connection while it was being set up: the producer never started (setup error)
@@ -233,6 +278,8 @@ class P:
     def classify(self, line, impl, model):
         if self.info(line)[0] == "move":
             return ("tcp sink by name, moves to its other address", line if impl.startswith("LINES") else None)
+        if self.info(line)[0] == "two":
+            return ("two producers, two sinks (%s)" % " ".join(line.split(" ")[1:3]), line if impl.startswith("A ") else None)
         if self.info(line)[0] == "stall":
             return ("tcp stalling sink: " + re.sub(r"\d+", "N", self.info(line)[5]), line)
         proto, retry, gap, faults, msgs = self.info(line)
